@@ -510,4 +510,50 @@ example : Generated.Partition.owner_search_defined 1 0 4 (fcI [0, 3, 3, 3, 3]) 5
 /-- a column below `first_cols[0]` would read `first_cols[-1]`: flagged -/
 example : Generated.Partition.owner_search_defined 1 0 2 (fcI [1, 2, 3]) 3 4 0 = false := by decide
 
+
+/-! ## `create_assumed_partition` and `transpose()` (translated since the members-mode / new-expression extension of the translator) -/
+
+/-- `create_assumed_partition`: `assumed_num_cols` is the model's ceiling, and the one store into `first_cols` writes
+    `global_num_cols` at index `num_procs` — the sentinel the owner search relies on (`Model.Partition.firstCols`) -/
+theorem assumed_partition_bridge (nCols np rk : Nat) :
+    Generated.Partition.assumed_partition nCols rk np
+      = (((Partition.assumedNumCols nCols np : Nat) : Int), (np : Int), (nCols : Int)) := by
+  unfold Generated.Partition.assumed_partition Partition.assumedNumCols
+  simp only [tdiv_cast, tmod_cast]
+  by_cases h : nCols % np = 0
+  · simp [h]
+  · have h' : (nCols : Int) % (np : Int) ≠ 0 := by exact_mod_cast h
+    simp [h, h']
+
+theorem firstCols_sentinel (parts : List Partition.Part) (nCols : Nat) :
+    (Partition.firstCols parts nCols).getD parts.length 0 = nCols := by
+  simp [Partition.firstCols, List.getD_eq_getElem?_getD]
+
+theorem assumed_partition_defined (nCols np rk : Nat) (hnp : 0 < np) :
+    Generated.Partition.assumed_partition_defined nCols rk np = true := by
+  have : (np : Int) ≠ 0 := by omega
+  unfold Generated.Partition.assumed_partition_defined
+  have hn : np ≠ 0 := by omega
+  by_cases h : Int.tmod (nCols : Int) (np : Int) = 0 <;> simp [this, h, hn]
+
+/-- `transpose()` hands the explicit constructor exactly the fields of the model's transposed partition, in the
+    constructor's parameter order -/
+theorem transpose_bridge (P : Partition.Part) :
+    Generated.Partition.transpose_args P.firstCol P.firstRow P.globalCols P.globalRows P.localCols P.localRows
+      = (let T := Partition.transpose P
+         ((T.globalRows : Int), (T.globalCols : Int), (T.localRows : Int), (T.localCols : Int), (T.firstRow : Int), (T.firstCol : Int))) := by
+  simp [Generated.Partition.transpose_args, Partition.transpose, Partition.explicit]
+
+/-- composed with the constructor it calls: the object `transpose()` returns is the model's transpose -/
+theorem transpose_ctor_bridge (P : Partition.Part) :
+    (let a := Generated.Partition.transpose_args P.firstCol P.firstRow P.globalCols P.globalRows P.localCols P.localRows
+     Generated.Partition.ctor_explicit a.1 a.2.1 a.2.2.1 a.2.2.2.1 a.2.2.2.2.1 a.2.2.2.2.2)
+      = (let T := Partition.transpose P
+         ((T.globalRows : Int), (T.globalCols : Int), (T.localRows : Int), (T.localCols : Int), (T.firstRow : Int),
+          (T.firstCol : Int), T.lastRow, T.lastCol, (0 : Int))) := by
+  simp [Generated.Partition.transpose_args, Generated.Partition.ctor_explicit, Partition.transpose, Partition.explicit,
+    Partition.Part.lastRow, Partition.Part.lastCol]
+
+theorem transpose_args_defined (a b c d e f : Int) : Generated.Partition.transpose_args_defined a b c d e f = true := rfl
+
 end Raptor.C18Bridge
